@@ -310,6 +310,9 @@ func runDoc(c *hx.Ctx, k *kase, data []byte, g *genInfo) {
 	entryPoints(c, k, data, &run)
 	cacheOrder(c, k, data, &run)
 	apiOps(c, k, data)
+	if k.Stream != "deep" {
+		depthOps(c, k, data)
+	}
 }
 
 // ---- other entry points --------------------------------------------------------
@@ -551,7 +554,10 @@ func Run(c *hx.Ctx) {
 		"mixed with nav/aside/header/footer, ARIA roles, class/id names from and near the exclusion vocabulary, link-dense/sparse blocks and skipped elements, " +
 		"at depth up to 10, in six page layouts; written by an independent HTML writer (entity forms, optional tags omitted, mixed case, unclosed formatting) and, " +
 		"for one case in five, damaged (truncation, dropped/stray/duplicated tags, garbage); every content element carries a unique token; each document is read in " +
-		"all four modes through htmldoc.Open/OpenReader, tabula.Open/FromHTMLString/FromHTMLReader and an EPUB built around it. Non-trivial = mode None returns non-empty text."
+		"all four modes through htmldoc.Open/OpenReader, tabula.Open/FromHTMLString/FromHTMLReader and an EPUB built around it. Non-trivial = mode None returns non-empty text. " +
+		"Depth limit of OpenReader (10000 levels): seven shapes of nesting (spans, formatting elements, lists, blockquotes, containers, tables in cells, divs) written to the heights " +
+		"9999, 10000, 10001 and far beyond, the height measured by the harness on its own parse; within the limit the same pipeline, beyond it every entry point must refuse and an EPUB must keep its other chapters; " +
+		"the depth walk is compared at limits next to the height of every third generated document."
 	matchOps(c)
 	for i, s := range fixed {
 		k := &kase{Stream: "fixed", Index: i, HTML: s}
@@ -570,6 +576,7 @@ func Run(c *hx.Ctx) {
 		}
 		runDoc(c, k, data, info)
 	}
+	deepCases(c)
 	os.RemoveAll(filepath.Join(c.OutDir, "tmp"))
 }
 
@@ -591,6 +598,22 @@ func Replay(c *hx.Ctx, kase_ map[string]interface{}) {
 		runDoc(c, k, data, info)
 	case "match":
 		matchOne(c, htmlS)
+	case "deep":
+		// regenerated from the note: shape=<name> height=<n>
+		note, _ := kase_["note"].(string)
+		var name string
+		var want int
+		if _, err := fmt.Sscanf(note, "shape=%s height=%d", &name, &want); err == nil {
+			for si := range deepShapes {
+				if deepShapes[si].name == name {
+					if doc, ok := deepShapes[si].atHeight(want); ok {
+						runDeep(c, &kase{Stream: "deep", Index: idx, Note: note, HTML: doc}, []byte(doc), &deepShapes[si], want, !deepShapes[si].slow)
+					}
+				}
+			}
+		}
+	case "deep-nav":
+		navDocs(c)
 	default:
 		runDoc(c, &kase{Stream: stream, Index: idx, HTML: htmlS}, []byte(htmlS), nil)
 	}
